@@ -1,4 +1,4 @@
-import CashewsVerif.Lemmas.TagsTrace
+import CashewsVerif.Lemmas.TagsMatch
 import CashewsVerif.Lemmas.TagTemplates
 /-
 C12 — `delete_tags` removes every live key carrying the tag, whatever the write order.
@@ -6,7 +6,10 @@ Property theorems only; helper lemmas live in `Lemmas/Tags*.lean`, the model in 
 
 Reading guide.  `exec cfg init ops` is the state after an arbitrary history `ops` of tagged / untagged
 `set` (plain, nx, xx), `incr`, decorated calls, `get`, `exists`, `delete`, `delete_many`,
-`delete_match`, `delete_tags`, time advances and purge sweeps, started on the empty store.
+`delete_match` (given by the list of keys its pattern matches: a glob, a wildcard-free pattern naming one
+key, or a pattern matching nothing), `delete_tags`, time advances and purge sweeps, started on the empty store.
+A decorated call is given by the key and the tags rendered from its arguments at call time
+(`decorator_tags_are_call_time_tags`, `decorator_tags_are_registry_tags` in the second layer).
 `trace cfg init ops` pairs every command with its result; `latestTags k trace` is the tag list of
 the latest command in the trace that wrote `k` ("the latest write of `k` carried ...").
 `readable s k` is what `get k` returns in state `s`.  The model has no capacity: the property's
@@ -74,11 +77,15 @@ theorem never_carried_untouched (cfg : Cfg) (ops : List TOp) (hreg : Registered 
   · simp [init] at h'
   · exact h op ho t ht hx
 
-/-- **Precision, second clause of the property.**  A key that was explicitly deleted (`delete k`, or a
-`delete_many` naming it) after carrying the tag and was re-created by commands that do not attach the
-tag again is left untouched. -/
+/-- **Precision, second clause of the property.**  A key that was explicitly deleted after carrying the tag -
+by `delete k`, by a `delete_many` naming it, by a `delete_match` whose pattern it matches while it is readable
+(`ks` = the keys matching the pattern: a glob, or a wildcard-free pattern naming exactly this key), or by an
+earlier `delete_tags` that physically removed it - and was re-created by commands that do not attach the tag
+again is left untouched. -/
 theorem deleted_recreated_untouched (cfg : Cfg) (pre post : List TOp) (d : TOp) (tl : List Nat) (k : Nat)
-    (hd : d = .delete k ∨ ∃ ks, d = .deleteMany ks ∧ k ∈ ks)
+    (hd : d = .delete k ∨ (∃ ks, d = .deleteMany ks ∧ k ∈ ks) ∨
+          (∃ ks, d = .deleteMatch ks ∧ k ∈ ks ∧ (readable (exec cfg init pre) k).isSome = true) ∨
+          (∃ tl', d = .deleteTags tl' ∧ (exec cfg init pre).kv k ≠ none ∧ (step cfg (exec cfg init pre) d).1.kv k = none))
     (hreg : Registered cfg (pre ++ d :: post))
     (h : ∀ op ∈ post, ∀ t ∈ tl, t ∉ op.tagsFor k) :
     (step cfg (exec cfg init (pre ++ d :: post)) (.deleteTags tl)).1.kv k = (exec cfg init (pre ++ d :: post)).kv k := by
@@ -86,17 +93,43 @@ theorem deleted_recreated_untouched (cfg : Cfg) (pre post : List TOp) (d : TOp) 
   intro t ht hs
   rw [exec_append, exec_cons] at hs
   rcases exec_since cfg post _ k t hs with h' | ⟨op, ho, hx⟩
-  · rcases hd with hd | ⟨ks, hd, hk⟩
-    · subst hd
-      rw [since_after_delete] at h'
-      simp at h'
-    · subst hd
-      have : (step cfg (exec cfg init pre) (.deleteMany ks)).1.since k = [] := by
+  · have hnil : (step cfg (exec cfg init pre) d).1.since k = [] := by
+      rcases hd with hd | ⟨ks, hd, hk⟩ | ⟨ks, hd, hk, hl⟩ | ⟨tl', hd, hb, ha⟩
+      · subst hd; exact since_after_delete cfg _ k
+      · subst hd
         show (ks.foldl (St.delKey cfg) (exec cfg init pre)).since k = []
         rw [foldl_delKey_since]; simp [hk]
-      rw [this] at h'
-      simp at h'
+      · subst hd
+        show ((exec cfg init pre).delMatch cfg ks).since k = []
+        have hl' : (liveAt (exec cfg init pre).now (exec cfg init pre).kv k).isSome = true := by
+          simpa [readable] using hl
+        rw [(delMatch_kv_since cfg ks _ k).2, if_pos ⟨hk, hl'⟩]
+      · subst hd
+        exact deleteTags_removed_since cfg tl' _ k hb ha
+    rw [hnil] at h'
+    simp at h'
   · exact h op ho t ht hx
+
+/-- **`delete_match` removes exactly the live matching keys.**  After any history, `delete_match(pattern)` -
+`ks` = the keys the pattern matches, be it a glob, the exact name of one key, or nothing - removes the entry of
+every matching key that is readable, and leaves every other entry (value and deadline) as it was. -/
+theorem delete_match_removes_live_matches (cfg : Cfg) (ops : List TOp) (ks : List Nat) (k : Nat) :
+    (step cfg (exec cfg init ops) (.deleteMatch ks)).1.kv k =
+      if k ∈ ks ∧ (readable (exec cfg init ops) k).isSome = true then none else (exec cfg init ops).kv k := by
+  show ((exec cfg init ops).delMatch cfg ks).kv k = _
+  rw [(delMatch_kv_since cfg ks _ k).1]
+  simp [readable]
+
+/-- **`delete_match` prunes tag membership.**  Under documented usage, a key removed by `delete_match` (it
+matched and was readable) is a member of no tag set afterwards - so a later `set` of the same key without
+tags is not reachable from any `delete_tags`.  (`membersOpt (liveAt ..)` = the members `set_pop` would see.) -/
+theorem delete_match_prunes_membership (cfg : Cfg) (ops : List TOp) (hreg : Registered cfg ops) (ks : List Nat) (k t : Nat)
+    (hk : k ∈ ks) (hl : (readable (exec cfg init ops) k).isSome = true) :
+    let s' := (step cfg (exec cfg init ops) (.deleteMatch ks)).1
+    k ∉ membersOpt (liveAt s'.now s'.ts t) := by
+  intro s'
+  have hl' : (liveAt (exec cfg init ops).now (exec cfg init ops).kv k).isSome = true := by simpa [readable] using hl
+  exact delMatch_pruned ks (pinv_exec ops hreg (pinv_init cfg)) hk hl' t
 
 /-- **`delete_tags` only removes.**  For every history (registered or not): every key's entry after
 `delete_tags` is the entry it had, or gone — never a different value or deadline. -/
@@ -148,6 +181,37 @@ example :
     (run cfgEx init (ops ++ [.deleteTags [0], .get 0, .get 1])).2 =
       [.bool true, .bool true, .bool true, .bool true, .unit, .val none, .val (some (.tok 3))] := by decide
 
+/-- `deleted_recreated_untouched` through `delete_match`: key 1 carried tag 0 and is removed by the wildcard-free
+pattern naming it (`ks = [1]`), key 2 by a glob matching keys 2 and 3, a third pattern matches nothing; both are
+re-created without the tag; `delete_tags 0` removes key 0 only.  The premises of the theorem hold (key 1 is readable
+when the `delete_match` is issued) and the removed key is in no tag set afterwards. -/
+example :
+    let pre := [TOp.set 0 (.tok 1) none .always [0], .set 1 (.tok 2) none .always [0, 1], .set 2 (.tok 3) (some 800) .always [0]]
+    let post := [TOp.deleteMatch [2, 3], .deleteMatch [], .set 1 (.tok 4) none .always [], .set 2 (.tok 5) none .always [1]]
+    Registered cfgEx (pre ++ .deleteMatch [1] :: post) ∧
+    (readable (exec cfgEx init pre) 1).isSome = true ∧
+    ((exec cfgEx init (pre ++ [.deleteMatch [1]])).ts 0).map members = some [0, 2] ∧
+    ((exec cfgEx init (pre ++ [.deleteMatch [1]])).ts 1).map members = some [] ∧
+    (run cfgEx init (pre ++ .deleteMatch [1] :: post ++ [.deleteTags [0], .get 0, .get 1, .get 2])).2 =
+      [.bool true, .bool true, .bool true, .unit, .unit, .unit, .bool true, .bool true, .unit,
+       .val none, .val (some (.tok 4)), .val (some (.tok 5))] := by decide
+
+/-- `deleted_recreated_untouched` through an earlier `delete_tags`: key 1 carried tags 0 and 1, `delete_tags 1`
+physically removes it (premises of the fourth alternative), it is re-created untagged, `delete_tags 0` spares it -/
+example :
+    let pre := [TOp.set 0 (.tok 1) none .always [0], .set 1 (.tok 2) none .always [0, 1]]
+    (exec cfgEx init pre).kv 1 ≠ none ∧ (step cfgEx (exec cfgEx init pre) (.deleteTags [1])).1.kv 1 = none ∧
+    (run cfgEx init (pre ++ [.deleteTags [1], .set 1 (.tok 3) none .always [], .deleteTags [0], .get 0, .get 1])).2 =
+      [.bool true, .bool true, .unit, .bool true, .unit, .val none, .val (some (.tok 3))] := by decide
+
+/-- `delete_match` skips a key that is expired but not yet purged (`scan` ignores it): nothing is removed, and the
+key does not count as explicitly deleted - the hypothesis "readable" of the `delete_match` alternative is needed -/
+example :
+    let ops := [TOp.set 1 (.tok 2) (some 8) .always [0], .adv 16]
+    (readable (exec cfgEx init ops) 1).isSome = false ∧
+    (step cfgEx (exec cfgEx init ops) (.deleteMatch [1])).1.kv 1 = (exec cfgEx init ops).kv 1 ∧
+    (exec cfgEx init ops).kv 1 ≠ none := by decide
+
 /-- without registration the second clause fails (D21, documented usage excludes it): the model shows it -/
 example :
     let cfg : Cfg := { tagOf := fun _ => [], batch := 100, keys := [0] }
@@ -198,8 +262,65 @@ theorem registry_tag_is_writers_tag (isSep : Char → Bool) (val : Nat → List 
   rw [match_unique keyTpl hw hv asg hm]
   exact render_congr tagTpl (fun f hf => lookup_intended val keyTpl f (hsub f hf))
 
+open CashewsVerif.TagTpl in
+/-- **A decorator's tags are those of the call.**  A miss of a function decorated with
+`@cache(key=keyTpl, tags=tagTpls)` files the entry under the key and the tags rendered from the arguments as the
+caller passed them - whatever the decorated function does to its (mutable) arguments while it runs (`body`
+arbitrary: sorting or extending a list, filling a dict, rewriting an attribute). -/
+theorem decorator_tags_are_call_time_tags (keyTpl : Tpl) (tagTpls : List Tpl) (val : Nat → List Char)
+    (body : (Nat → List Char) → (Nat → List Char)) :
+    decorMiss keyTpl tagTpls val body = { key := render val keyTpl, tags := tagTpls.map (render val) } := rfl
+
+open CashewsVerif.TagTpl in
+/-- **A decorator's tags are the registry's tags for the stored key**, for every body.  Under the hypotheses of
+`registry_recovers_fields`, for tag templates over fields of the key template: the tags the entry is filed
+under are exactly those `get_key_tags` derives from the key it is stored under (any match of the registry's
+regular expression) - decorated calls are `Registered`, so both `delete_tags_complete` (the entry goes with
+each of its call-time tags) and the precision theorems apply to them, mutation or not. -/
+theorem decorator_tags_are_registry_tags (isSep : Char → Bool) (val : Nat → List Char) (keyTpl : Tpl) (tagTpls : List Tpl)
+    (body : (Nat → List Char) → (Nat → List Char))
+    (hw : WellSeparated isSep keyTpl = true) (hv : SepFreeVals isSep val keyTpl)
+    (hsub : ∀ tt ∈ tagTpls, ∀ f ∈ fields tt, f ∈ fields keyTpl)
+    (asg : List (Nat × List Char)) (hm : Matches keyTpl (decorMiss keyTpl tagTpls val body).key asg) :
+    (decorMiss keyTpl tagTpls val body).tags = tagTpls.map (render (lookup asg)) := by
+  show tagTpls.map (render val) = tagTpls.map (render (lookup asg))
+  apply List.map_congr_left
+  intro tt htt
+  exact (registry_tag_is_writers_tag isSep val keyTpl tt hw hv (hsub tt htt) asg hm).symm
+
+open CashewsVerif.TagTpl in
+/-- **Rendering the tags after the call breaks the property.**  `@cache(key="r/{0}", tags=["c/{0}"])` on a function
+that appends to its list argument (`ab` becomes `abz`): rendered late, the entry stored under `r/ab` is filed under
+`c/abz` instead of its call's `c/ab`; and an entry filed under another tag (1) than its call's (0) is still
+readable after `delete_tags` of the call's tag. -/
+theorem late_tag_formatting_incomplete :
+    let keyTpl : Tpl := [.lit ['r', '/'], .fld 0]
+    let tagTpl : Tpl := [.lit ['c', '/'], .fld 0]
+    let val : Nat → List Char := fun _ => ['a', 'b']
+    let body : (Nat → List Char) → (Nat → List Char) := fun v f => v f ++ ['z']
+    (decorMiss keyTpl [tagTpl] val body).tags = [['c', '/', 'a', 'b']] ∧
+    (decorMissLate keyTpl [tagTpl] val body).key = ['r', '/', 'a', 'b'] ∧
+    (decorMissLate keyTpl [tagTpl] val body).tags = [['c', '/', 'a', 'b', 'z']] ∧
+    (let cfg : Cfg := { tagOf := fun _ => [0, 1], batch := 100, keys := [0] }
+     readable (exec cfg init [.call 0 (.tok 1) (some 800) [1], .deleteTags [0]]) 0 = some (.tok 1) ∧
+     readable (exec cfg init [.call 0 (.tok 1) (some 800) [0], .deleteTags [0]]) 0 = none) := by decide
+
 section
 open CashewsVerif.TagTpl
+
+/-- the hypotheses of `decorator_tags_are_registry_tags` are satisfiable with a body that changes the argument -/
+example :
+    let keyTpl : Tpl := [.lit ['r', '/'], .fld 0]
+    let val : Nat → List Char := fun _ => ['a', 'b']
+    let body : (Nat → List Char) → (Nat → List Char) := fun v f => v f ++ ['z']
+    WellSeparated (fun c => c == 'r' || c == '/') keyTpl = true ∧ body val 0 ≠ val 0 ∧
+    SepFreeVals (fun c => c == 'r' || c == '/') val keyTpl ∧
+    Matches keyTpl (decorMiss keyTpl [[.lit ['c', '/'], .fld 0]] val body).key [(0, ['a', 'b'])] := by
+  refine ⟨by decide, by decide, ?_, ?_⟩
+  · intro f _ c hc
+    simp at hc
+    rcases hc with h | h <;> subst h <;> decide
+  · exact .lit ['r', '/'] (.fld 0 ['a', 'b'] .nil)
 
 /-- `"u:{0}:p:{1}"`, separators = the characters of its literals -/
 def keyTplEx : Tpl := [.lit ['u', ':'], .fld 0, .lit [':', 'p', ':'], .fld 1]
